@@ -105,6 +105,7 @@ class Std:
     def __init__(s, kind, ports, sp=None, form='m', brows=None, bcols=None, s_rows=None, s_cols=None, map_null=False):
         s.kind = kind; s.ports = list(ports); s.sp = list(sp or []); s.form = form; s.brows = brows; s.bcols = bcols
         s.s_rows = s_rows; s.s_cols = s_cols; s.map_null = map_null
+        s.sid = None          # canonical identity of the physical standard (kept by re-descriptions; names its measurement symbols)
 
     def tag(s):
         return '%s%s(%s)%s%s' % (s.kind[:2], ''.join(str(p) for p in s.ports), ','.join(x if isinstance(x, str) else x[1] for x in s.sp),
@@ -295,6 +296,7 @@ class Flow:
         s.it.hooks['_vnacommon_qrsolve'] = s._qrsolve
         s.symbolic = symbolic
         s.nsym = 0
+        s.xname = None         # optional: capture index -> name stem of the fresh solution symbols
 
     # hooks
     def _err(s, it, a):
@@ -323,7 +325,7 @@ class Flow:
         Am = s._rdmat(it, A, m, n); bv = [r[0] for r in s._rdmat(it, b, m, 1)]
         k = len(s.captured)
         if s.solver is not None: xs = s.solver(Am, bv, m, n)
-        else: xs = [csym('x%d_%d' % (k, j)) for j in range(n)]
+        else: xs = [csym('x%s_%d' % (s.xname(k) if s.xname else k, j)) for j in range(n)]
         s.captured.append((Am, bv, xs))
         if xs is None: return False
         s._wrvec(it, x, xs)
@@ -420,12 +422,13 @@ def add_standard(flow, cfg, st, k, mvals, avals, handles, val):
     rows, cols = cfg.rows, cfg.cols
     br = st.brows if st.brows is not None else rows
     bc = st.bcols if st.bcols is not None else cols
-    b = flow.cmatrix([[v] for v in mvals])
+    multi = bool(mvals) and isinstance(mvals[0], list)       # per-frequency lists
+    b = flow.cmatrix([list(v) for v in mvals] if multi else [[v] for v in mvals])
     h = lambda spec: param_handle(flow, spec, handles, val)
     if st.form in ('ab', 'abc', 'abk'):
         if cfg.typ in (UE14, E12): ar, ac = 1, bc
         else: ar, ac = bc, bc
-        a = flow.cmatrix([[v] for v in avals])
+        a = flow.cmatrix([list(v) for v in avals] if multi else [[v] for v in avals])
         pre = [flow.vnp, a, ar, ac, b, br, bc]; sfx = ''
     else:
         pre = [flow.vnp, b, br, bc]; sfx = '_m'
@@ -541,6 +544,17 @@ def leakage_oracle(cfg, models, Ms):
             if n: El[r][c] = acc / cconst(n)
             cnt[r][c] = n
     return El, cnt
+
+
+def leakage_counts(cfg, val):
+    """how many standards measure each off-diagonal cell without a signal path (structure only)"""
+    cnt = [[0] * cfg.cols for _ in range(cfg.rows)]
+    for k, st in enumerate(cfg.stds):
+        sm = std_model(cfg, st, k, val)
+        for r in sm.rowmap:
+            for c in sm.colmap:
+                if r != c and r < cfg.rows and c < cfg.cols and not sm.connected[r][c]: cnt[r][c] += 1
+    return cnt
 
 
 def expected_rows(cfg, L, models, Ms, El, evec_for_system):
@@ -676,8 +690,12 @@ def symbolic_check(mod, cfg, choices=(), generic=True, holder=None):
     n_out = len(e) if cfg.typ != E12 else 3 * cfg.rows * cfg.cols
     stored = read_error_terms(flow, n_out)
     want = e if cfg.typ != E12 else e12_from_ue14(cfg, L, e, El)
+    from irx import Special
     if stored is None or len(stored) != len(want):
         res['sat'].append({'q': 'placement: calibration holds %d error terms' % len(want), 'detail': 'none' if stored is None else len(stored)})
+    elif any(isinstance(v.re, Special) or isinstance(v.im, Special) for v in stored):
+        res['sat'].append({'q': 'placement: every stored error term is a finite number', 'detail': 'non-finite stored terms at indices %s' %
+                           [i for i, v in enumerate(stored) if isinstance(v.re, Special) or isinstance(v.im, Special)]})
     else:
         prove_zero([a - b_ for a, b_ in zip(stored, want)], 'placement: stored error terms == documented e(x) (unity inserted, leakage appended%s)' % (', E12 conversion' if cfg.typ == E12 else ''))
     res['steps'] = it.steps; res['funcs'] = sorted(it.funcs_run)
@@ -712,6 +730,207 @@ def symbolic_all_paths(mod, cfg, max_paths=16, generic=True):
         results.append(r)
         if len(results) > max_paths: raise RuntimeError('too many paths')
     return results
+
+
+# ---------------------------------------------------------------------------------------------------------------------
+# C17: two descriptions of the same physical information, run on the real code with the SAME symbols
+
+def capture_run(mod, cfg, choices=(), holder=None, pre=None, tag='', freq_ids=(0,), xoff=0):
+    """the calibrate flow with measurement symbols named by physical standard (sid) and full-matrix cell, so that two
+    descriptions of the same information share their symbols.  a/b forms pass b = M a (a symbolic / scaled / constant).
+    Returns dict(systems=[(rows as C polynomials A_i x - b_i)], stored=[C], solve_rc, errors, it)"""
+    import irsym
+    typ = E12U if cfg.typ == E12 else cfg.typ
+    L = layout_doc(typ, cfg.rows, cfg.cols)
+    flow = Flow(mod); it = flow.it
+    if holder is not None: holder['flow'] = flow
+    it.choices = list(choices); it.generic = True
+    flow.create()
+    if pre is not None: pre(flow)           # e.g. an unrelated calibration built first on the same vnacal_t
+    F = len(freq_ids)
+    flow.new_alloc(cfg.typ, cfg.rows, cfg.cols, F)
+    out = {'it': it, 'flow': flow, 'systems': [], 'stored': None, 'error': None}
+    if flow.vnp.obj is None: out['error'] = 'vnacal_new_alloc failed: %s' % it.errors; return out
+    assert flow.set_frequencies([Fraction(10 ** 9) * (1 + fi) for fi in freq_ids]) == 0
+    symcache = {}
+    def val(spec, tag_):
+        if isinstance(spec, str): return cconst(PRE[spec][1])
+        if spec not in symcache: symcache[spec] = csym('p_' + spec[1])
+        return symcache[spec]
+    handles = {}
+    for k, st in enumerate(cfg.stds):
+        sm = std_model(cfg, st, k, val)
+        sid = st.sid if st.sid is not None else 'x%d' % k
+        per_f = []
+        for fi in freq_ids:
+            mv = lambda r, c, sid=sid, fi=fi: csym('m%s_%d%d%s' % (sid, r, c, '' if fi == 0 else '_f%d' % fi))
+            per_f.append(oracle_measurements(cfg, st, k + (0 if tag != 'y' else 100) + 1000 * fi, sm, symbolic=True, mvalue=mv))
+        if F == 1: mvals, avals = per_f[0][0], per_f[0][1]
+        else:
+            mvals = [[pf[0][i] for pf in per_f] for i in range(len(per_f[0][0]))]
+            avals = None if per_f[0][1] is None else [[pf[1][i] for pf in per_f] for i in range(len(per_f[0][1]))]
+        rc = add_standard(flow, cfg, st, k, mvals, avals, handles, val)
+        if rc != 0:
+            out['error'] = 'add of standard %d (%s) refused: %s' % (k, st.tag(), it.errors[-1:]); return out
+    n0 = len(flow.captured)
+    flow.xname = lambda k_: k_ - n0 + xoff
+    rc = flow.solve()
+    out['solve_rc'] = rc; out['errors'] = [(c, m.decode()) for c, m in it.errors]
+    for (A, b, xs) in flow.captured[n0:]:
+        rows_ = []
+        for i in range(len(A)):
+            acc = cconst(0) - b[i]
+            for j in range(len(xs)):
+                if not A[i][j].iszero(): acc = acc + A[i][j] * xs[j]
+            rows_.append(acc)
+        out['systems'].append(rows_)
+    if rc == 0:
+        n_out = L['el'] + L['el_terms'] if cfg.typ != E12 else 3 * cfg.rows * cfg.cols
+        out['stored'] = []
+        for f in range(F): out['stored'] += read_error_terms(flow, n_out, f)
+    return out
+
+
+def all_paths(run, max_paths=32):
+    """run(choices, holder) -> result; explores every feasible combination of undecided order comparisons"""
+    import z3, irsym
+    todo = [[]]; results = []
+    while todo:
+        ch = todo.pop()
+        holder = {}
+        try:
+            r = run(ch, holder)
+        except irsym.Fork as fk:
+            it = holder['flow'].it
+            for b in (True, False):
+                c_ = z3.simplify(fk.cond if b else z3.Not(fk.cond))
+                if it._feasible(c_) != 'unsat': todo.append(ch + [b])
+            continue
+        r['path'] = ch
+        results.append(r)
+        if len(results) > max_paths: raise RuntimeError('too many paths')
+    return results
+
+
+def compare_runs(rx, ry, res, what):
+    """z3: under both path conditions the two runs hand the same equations (as multisets, up to sign) to the solver in every
+    system and store the same error terms"""
+    import z3, irsym
+    class Both:      # check_zero wants an object with dens / path
+        pass
+    bt = Both(); bt.dens = list(rx['it'].dens) + list(ry['it'].dens); bt.path = list(rx['it'].path) + list(ry['it'].path)
+    def zero(cs, q):
+        ex = []
+        for c_ in cs: ex += [c_.re, c_.im]
+        st_, mdl = irsym.check_zero(bt, ex, timeout_ms=60000)
+        res['queries'] += 1
+        if st_ == 'unsat': res['unsat'] += 1; return True
+        if st_ == 'sat': return False
+        res['unknown'].append({'q': q, 'why': str(mdl)}); return None
+    if (rx.get('solve_rc'), ry.get('solve_rc')) != (0, 0):
+        if rx.get('solve_rc') != ry.get('solve_rc'):
+            res['sat'].append({'q': what + ': both descriptions solve alike', 'detail': 'solve rc %s vs %s; %s | %s' % (rx.get('solve_rc'), ry.get('solve_rc'), rx.get('errors'), ry.get('errors'))})
+        return
+    if len(rx['systems']) != len(ry['systems']):
+        res['sat'].append({'q': what + ': same number of linear systems', 'detail': '%d vs %d' % (len(rx['systems']), len(ry['systems']))}); return
+    for si, (X, Y) in enumerate(zip(rx['systems'], ry['systems'])):
+        if len(X) != len(Y):
+            res['sat'].append({'q': what + ': system %d has the same number of equations' % si, 'detail': '%d vs %d' % (len(X), len(Y))}); continue
+        keys = {}
+        for j, r_ in enumerate(Y):
+            keys.setdefault(_key(r_), []).append((j, +1)); keys.setdefault(_key(-r_), []).append((j, -1))
+        used = set()
+        for i, r_ in enumerate(X):
+            hit = None; n0 = len(res['unknown'])
+            cands = [(j, sg) for j, sg in keys.get(_key(r_), []) if j not in used]
+            order = cands + [(j, sg) for j in range(len(Y)) if j not in used for sg in (+1, -1) if (j, sg) not in cands]
+            for j, sg in order:
+                d = (r_ - Y[j]) if sg > 0 else (r_ + Y[j])
+                if zero([d], '%s: system %d equation %d of the first == %s equation %d of the second' % (what, si, i, '+' if sg > 0 else '-', j)):
+                    hit = j; break
+            if hit is None:
+                if len(res['unknown']) == n0:
+                    res['sat'].append({'q': '%s: system %d equation %d of the first description appears in the second' % (what, si, i), 'row': _key(r_)[:400]})
+            else: used.add(hit)
+    if rx['stored'] is not None and ry['stored'] is not None:
+        if len(rx['stored']) != len(ry['stored']):
+            res['sat'].append({'q': what + ': same number of stored error terms', 'detail': '%d vs %d' % (len(rx['stored']), len(ry['stored']))})
+        else:
+            from irx import Special
+            bad = [i for i, (a, b_) in enumerate(zip(rx['stored'], ry['stored'])) if isinstance(a.re, Special) != isinstance(b_.re, Special)]
+            if bad: res['sat'].append({'q': what + ': stored error terms finite alike', 'detail': bad})
+            else:
+                prs = [(a, b_) for a, b_ in zip(rx['stored'], ry['stored']) if not isinstance(a.re, Special)]
+                ok = zero([a - b_ for a, b_ in prs], what + ': stored error terms are identical')
+                if ok is False: res['sat'].append({'q': what + ': stored error terms are identical (same solver result x)'})
+
+
+def unrelated_pre(flow):
+    """an unrelated calibration (other type, other shape, own user parameters, solved and installed) on the same vnacal_t"""
+    from irx import NULL
+    keep = (flow.vnp if hasattr(flow, 'vnp') else None)
+    vcp = flow.vcp
+    other = Config(UE10, 1, 1, [Std('single', [1], [('sym', 'uq0')]), Std('single', [1], ['open']), Std('single', [1], ['match'])])
+    flow.new_alloc(other.typ, 1, 1, 1)
+    assert flow.set_frequencies([Fraction(7 * 10 ** 8)]) == 0
+    hs = {}
+    def val(spec, tag_): return cconst(PRE[spec][1]) if isinstance(spec, str) else csym('p_' + spec[1])
+    for k, st in enumerate(other.stds):
+        sm = std_model(other, st, k, val)
+        mvals, avals, Mfull = oracle_measurements(other, st, 500 + k, sm, symbolic=True, mvalue=lambda r, c, k=k: csym('mu%d_%d%d' % (k, r, c)))
+        assert add_standard(flow, other, st, k, mvals, avals, hs, val) == 0
+    flow.xname = lambda k_: 'u%d' % k_
+    assert flow.solve() == 0
+    assert flow.icall('vnacal_add_calibration', [vcp, flow.it.static_str(b'unrelated'), flow.vnp]) >= 0
+    flow.scalar_parameter(csym('p_unused'))       # one more live user parameter in the collection
+
+
+def pair_worker(mod, job):
+    """job: {'id', 'tier', 'x': config name, 'y': config name | None, 'mode': 'pair' | 'unrelated' | 'freqsplit'}"""
+    from props import calcfg
+    import irx
+    cx = calcfg.by_name(job['x'], job['tier'])
+    mode = job.get('mode', 'pair')
+    cy = calcfg.by_name(job['y'], job['tier']) if mode == 'pair' else cx
+    res = {'id': job['id'], 'paths': 0, 'queries': 0, 'unsat': 0, 'sat': [], 'unknown': [], 'fault': None, 'funcs': [], 'generic_assumed': 0, 'unexplored': []}
+    try:
+        if mode == 'pair':
+            RX = all_paths(lambda ch, h: capture_run(mod, cx, ch, h, tag='x'))
+            RY = all_paths(lambda ch, h: capture_run(mod, cy, ch, h, tag='y'))
+        elif mode == 'unrelated':
+            RX = all_paths(lambda ch, h: capture_run(mod, cx, ch, h, tag='x'))
+            RY = all_paths(lambda ch, h: capture_run(mod, cx, ch, h, tag='x', pre=unrelated_pre))
+        else:
+            nsys = cx.cols if cx.typ in COLSYS else 1
+            RX = all_paths(lambda ch, h: capture_run(mod, cx, ch, h, tag='x', freq_ids=(0, 1)))
+            R0 = all_paths(lambda ch, h: capture_run(mod, cx, ch, h, tag='x', freq_ids=(0,)))
+            R1 = all_paths(lambda ch, h: capture_run(mod, cx, ch, h, tag='x', freq_ids=(1,), xoff=nsys))
+            RY = []
+            for r0 in R0:
+                for r1 in R1:
+                    class _It: pass
+                    it2 = _It(); it2.dens = list(r0['it'].dens) + list(r1['it'].dens); it2.path = list(r0['it'].path) + list(r1['it'].path)
+                    it2.funcs_run = set(r0['it'].funcs_run) | set(r1['it'].funcs_run); it2.generic_assumed = r0['it'].generic_assumed + r1['it'].generic_assumed
+                    it2.unexplored = r0['it'].unexplored + r1['it'].unexplored
+                    RY.append({'it': it2, 'error': r0['error'] or r1['error'], 'solve_rc': r0.get('solve_rc') or r1.get('solve_rc'),
+                               'errors': (r0.get('errors') or []) + (r1.get('errors') or []), 'systems': r0['systems'] + r1['systems'],
+                               'stored': None if (r0['stored'] is None or r1['stored'] is None) else r0['stored'] + r1['stored']})
+    except (irx.MemFault, irx.LibAbort) as e:
+        res['fault'] = '%s: %s' % (type(e).__name__, e); return res
+    funcs = set()
+    for rx in RX:
+        for ry in RY:
+            res['paths'] += 1
+            for r in (rx, ry):
+                if r['error']: res['sat'].append({'q': 'the documented call sequence is accepted', 'detail': r['error']})
+            if rx['error'] or ry['error']: continue
+            compare_runs(rx, ry, res, '%s ~ %s' % (cx.name, cy.name))
+    for r in RX + RY:
+        funcs.update(r['it'].funcs_run); res['generic_assumed'] = max(res['generic_assumed'], len(r['it'].generic_assumed))
+        res['unexplored'] += [str(c)[:160] for c in r['it'].unexplored]
+    res['funcs'] = sorted(funcs)
+    res['equations'] = [len(x) for x in RX[0]['systems']] if RX else None
+    return res
 
 
 # ---------------------------------------------------------------------------------------------------------------------
@@ -826,6 +1045,10 @@ def concrete_check(mod, cfg, seed=1, do_apply=True):
         if isinstance(spec, str): return cconst(PRE[spec][1])
         if spec not in pvals: pvals[spec] = _rc(rnd, 8)
         return pvals[spec]
+    cnt0 = leakage_counts(cfg, val)
+    for r in range(rows):
+        for c in range(cols):
+            if r != c and not cnt0[r][c]: Elt[r][c] = cconst(0)     # leakage that no standard isolates cannot be (and is documented not to be) estimated
     handles = {}; models = []; Ms = []
     for k, st in enumerate(cfg.stds):
         sm = std_model(cfg, st, k, val)
@@ -862,6 +1085,10 @@ def concrete_check(mod, cfg, seed=1, do_apply=True):
     Eln = [[(Elt[r][c] if cnt[r][c] else cconst(0)) for c in range(cols)] for r in range(rows)]
     want = en if cfg.typ != E12 else e12_from_ue14(cfg, L, en, Eln)
     stored = read_error_terms(flow, len(want))
+    from irx import Special
+    nonfin = [i for i, a in enumerate(stored) if isinstance(a.re, Special) or isinstance(a.im, Special)]
+    if nonfin:
+        res['fail'].append('solved error terms are not finite at indices %s' % nonfin[:8]); return res
     bad = [i for i, (a, b_) in enumerate(zip(stored, want)) if not (a - b_).iszero()]
     if bad: res['fail'].append('solved error terms differ from the true (normalised) terms at indices %s' % bad[:8])
     res['terms'] = len(want)
@@ -894,7 +1121,7 @@ def concrete_check(mod, cfg, seed=1, do_apply=True):
 # ---------------------------------------------------------------------------------------------------------------------
 # native replay: the same flow as a C program against the gcc + ASan/UBSan build of the unmodified sources
 
-def native_program(cfg, seed=1, tol=1e-6, compare_with=None):
+def native_program(cfg, seed=1, tol=1e-6, compare_with=None, unrelated=False):
     """C source of: forward-model measurements from random error terms -> vnacal_new_add_* -> solve -> add_calibration -> apply_m on a
     random DUT -> compare with the DUT (exit 1 on any failing call or |difference| > tol).  compare_with: a second Config whose
     calibration (same true terms, same DUT) must correct identically (C17)."""
@@ -913,6 +1140,10 @@ def native_program(cfg, seed=1, tol=1e-6, compare_with=None):
         if spec not in pvals: pvals[spec] = _rc(rnd, 8)
         return pvals[spec]
     Sd = None
+    cnt0 = leakage_counts(cfg, val)
+    for r in range(cfg.rows):
+        for c in range(cfg.cols):
+            if r != c and not cnt0[r][c]: Elt[r][c] = cconst(0)
     def calibrate(cf_, tagc):
         rows, cols = cf_.rows, cf_.cols
         body.append('    vnacal_new_t *vnp%s = vnacal_new_alloc(vcp, VNACAL_%s, %d, %d, 1);' % (tagc, NAMES[cf_.typ], rows, cols))
@@ -962,6 +1193,15 @@ def native_program(cfg, seed=1, tol=1e-6, compare_with=None):
         body.append('    CHECK(vnacal_new_solve(vnp%s));' % tagc)
         body.append('    int ci%s = vnacal_add_calibration(vcp, "cal%s", vnp%s); CHECK(ci%s);' % (tagc, tagc, tagc, tagc))
     calibrate(cfg, 'A')
+    if unrelated:
+        # the same calibration once more, after an unrelated one was built, solved and installed on the same vnacal_t
+        body.append('    { vnacal_new_t *vu = vnacal_new_alloc(vcp, VNACAL_UE10, 1, 1, 1); static const double fu[1] = {7.0e8}; CHECK(vnacal_new_set_frequency_vector(vu, fu));')
+        body.append('      int pu = vnacal_make_scalar_parameter(vcp, -0.9 + 0.1 * I); CHECK(pu);')
+        body.append('      static double complex mu[3][1] = {{-0.7 + 0.2 * I}, {0.8 - 0.1 * I}, {0.05 + 0.02 * I}}; double complex *mp[1];')
+        body.append('      mp[0] = mu[0]; CHECK(vnacal_new_add_single_reflect_m(vu, mp, 1, 1, pu, 1)); mp[0] = mu[1]; CHECK(vnacal_new_add_single_reflect_m(vu, mp, 1, 1, VNACAL_OPEN, 1));')
+        body.append('      mp[0] = mu[2]; CHECK(vnacal_new_add_single_reflect_m(vu, mp, 1, 1, VNACAL_MATCH, 1)); CHECK(vnacal_new_solve(vu)); CHECK(vnacal_add_calibration(vcp, "unrelated", vu));')
+        body.append('      CHECK(vnacal_make_scalar_parameter(vcp, 0.3 - 0.4 * I)); vnacal_new_free(vu); }')
+        calibrate(cfg, 'B')
     if compare_with is not None: calibrate(compare_with, 'B')
     rows, cols = cfg.rows, cfg.cols
     if rows == cols:
@@ -970,12 +1210,17 @@ def native_program(cfg, seed=1, tol=1e-6, compare_with=None):
         body.append('    static double complex md_v[%d][1] = {%s};' % (rows * cols, ', '.join('{%s}' % cnum(Md[r][c]) for r in range(rows) for c in range(cols))))
         body.append('    double complex *md[%d]; for (int i = 0; i < %d; ++i) md[i] = md_v[i];' % (rows * cols, rows * cols))
         body.append('    static const double complex sd[%d] = {%s};' % (P * P, ', '.join(cnum(Sd[r][c]) for r in range(P) for c in range(P))))
-        for tagc in (['A'] + (['B'] if compare_with is not None else [])):
+        for tagc in (['A'] + (['B'] if (compare_with is not None or unrelated) else [])):
             body.append('    { vnadata_t *vdp = vnadata_alloc(errfn, NULL); CHECK(vnacal_apply_m(vcp, ci%s, fv, 1, md, %d, %d, vdp));' % (tagc, rows, cols))
             body.append('      for (int r = 0; r < %d; ++r) for (int c = 0; c < %d; ++c) { double complex v = vnadata_get_cell(vdp, 0, r, c);' % (P, P))
             body.append('        if (!(cabs(v - sd[r * %d + c]) <= %g)) { fprintf(stderr, "calibration %s: corrected S[%%d][%%d] = %%g%%+gi, device has %%g%%+gi\\n", r, c, creal(v), cimag(v), creal(sd[r * %d + c]), cimag(sd[r * %d + c])); bad = 1; } }' % (P, tol, tagc, P, P))
             body.append('      vnadata_free(vdp); }')
-    for tagc in (['A'] + (['B'] if compare_with is not None else [])): body.append('    vnacal_new_free(vnp%s);' % tagc)
+    # the saved error terms must be finite numbers (observable for shapes apply does not accept, too)
+    body.append('    CHECK(vnacal_save(vcp, "vf_replay.vnacal"));')
+    body.append('    { FILE *fp = fopen("vf_replay.vnacal", "r"); char line[4096]; while (fp != NULL && fgets(line, sizeof(line), fp) != NULL) {')
+    body.append('        if (strstr(line, "nan") != NULL || strstr(line, "inf") != NULL) { fprintf(stderr, "saved calibration holds a non-finite term: %s", line); bad = 1; } }')
+    body.append('      if (fp != NULL) fclose(fp); remove("vf_replay.vnacal"); }')
+    for tagc in (['A'] + (['B'] if (compare_with is not None or unrelated) else [])): body.append('    vnacal_new_free(vnp%s);' % tagc)
     out += ['int main(void)', '{', '    int bad = 0;', '    static const double fv[1] = {1.0e9};', '    vnacal_t *vcp = vnacal_create(errfn, NULL);',
             '    if (vcp == NULL) return 2;'] + body + ['    vnacal_free(vcp);', '    if (bad) { fprintf(stderr, "VF-ASSERT-FAIL: calibrate-then-apply does not recover the device\\n"); return 1; }',
                                                           '    printf("ok\\n"); return 0;', '}', '']
